@@ -72,6 +72,13 @@ fn specials() -> Vec<(String, Vec<u8>)> {
     for n in [49999u32, 50000, 50001] { if let Some(b) = wat(&format!("(module (func (local {})))", (0..n).map(|_| "i32").collect::<Vec<_>>().join(" "))) { v.push((format!("locals-{}", n), b)); } }
     // a locals declaration with a huge run count (few bytes, asks for 2^32-1 locals)
     v.push(("locals-run-u32max".into(), vec![0, 0x61, 0x73, 0x6d, 1, 0, 0, 0, 1, 4, 1, 0x60, 0, 0, 3, 2, 1, 0, 10, 10, 1, 8, 1, 0xff, 0xff, 0xff, 0xff, 0x0f, 0x7f, 0x0b]));
+    // locals groups: the value type of EVERY group is checked, also of an empty one (count 0); types that need a proposal walrus does not enable, an
+    // out-of-range type index, an unknown type byte; the same types in a non-empty group
+    for (nm, ty) in [("anyref", vec![0x6eu8]), ("exnref", vec![0x69]), ("ref-null-0", vec![0x63, 0x00]), ("ref-5", vec![0x64, 0x05]), ("unknown-type-byte", vec![0x40]), ("i32", vec![0x7f]), ("v128", vec![0x7b]), ("externref", vec![0x6f])] {
+        for count in [0u8, 1, 2] { for lead in [false, true] {
+            let mut f: Vec<u8> = vec![]; let groups = if lead { 2u8 } else { 1 }; f.push(groups); if lead { f.extend([1u8, 0x7f]); } f.push(count); f.extend(&ty); f.push(0x0b);
+            let mut m = vec![0u8, 0x61, 0x73, 0x6d, 1, 0, 0, 0, 1, 4, 1, 0x60, 0, 0, 3, 2, 1, 0]; let mut code = vec![1u8, f.len() as u8]; code.extend(f); m.push(10); m.push(code.len() as u8); m.extend(code);
+            v.push((format!("locals-group-{}-x{}{}", nm, count, if lead { "-after-an-i32-group" } else { "" }), m)); } } }
     // vectors announcing far more elements than there are bytes
     v.push(("type-count-u32max".into(), vec![0, 0x61, 0x73, 0x6d, 1, 0, 0, 0, 1, 6, 0xff, 0xff, 0xff, 0xff, 0x0f, 0x60]));
     v.push(("func-count-u32max".into(), vec![0, 0x61, 0x73, 0x6d, 1, 0, 0, 0, 1, 4, 1, 0x60, 0, 0, 3, 5, 0xff, 0xff, 0xff, 0xff, 0x0f]));
